@@ -411,7 +411,7 @@ def _chart_data_for(w, slot, rec, want_kind=None):
 
 
 def g_grow(r):
-    return {"slot": r.randint(0, 1), "what": r.choice(["category", "points", "points", "series"]), "n": r.choice([1, 2, 3, 5]), "ser": r.randint(0, 4),
+    return {"slot": r.randint(0, 1), "what": r.choice(["category", "points", "points", "series", "relabel"]), "n": r.choice([1, 2, 3, 5]), "ser": r.randint(0, 4),
             "vals": [round(r.uniform(-100, 100), 2) for _ in range(12)], "label": gens._label(r, 8, False), "name": gens._label(r, 8)}
 
 
@@ -443,6 +443,14 @@ def _grow(w, deck, a):
                 rec["series"][i]["values"].append(vals[(i + k) % len(vals)])
         w.stats.hit("c07_chartdata_grown")
         w.stats.hit("c07_multilevel_leaf_added_under_inner_group")
+        return
+    if rec["kind"] == "cat" and a["what"] == "relabel" and not isinstance(rec["categories"], dict) and rec.get("cat_type") == "str":
+        # the categories of the kept object are ASSIGNED anew - the same number of labels, other texts (sizes do not change)
+        labs = ["%s%d" % (a["label"], k) for k in range(len(rec["categories"]))]
+        cd.categories = labs
+        rec["categories"] = list(labs)
+        w.stats.hit("c07_chartdata_grown")
+        w.stats.hit("c07_chartdata_categories_reassigned_same_count")
         return
     if rec["kind"] == "cat":
         if isinstance(rec["categories"], dict) or rec.get("cat_type") != "str":
@@ -773,6 +781,7 @@ def gen_trace(seed: int, tier: str, which=("c07",)) -> dict:
         # the deck's charts as PowerPoint leaves them after edits python-pptx never makes (series numbers out of document order, the 1904
         # date system), or with booleans spelled as words
         start["xform"] = [rs.choice([{"kind": "rewrite_charts", "how": "reverse_idx"}, {"kind": "rewrite_charts", "how": "date1904"},
+                                     {"kind": "rewrite_charts", "how": "shift_order", "seed": rs.randint(0, 2)}, {"kind": "rewrite_charts", "how": "reverse_repeated"},
                                      {"kind": "rewrite_slides", "how": "bool_words"}])]
     pre = [{"op": "add_slide", "layout": 6, "dt": 1.0}]
     rp = S("pre")
@@ -884,6 +893,21 @@ def pinned_traces(tier, which=("c07",)):
                dict(box, op="c07.add_chart", type=t, data=d0, slot=0), {"op": "checkpoint", "sink": "seekable"}, {"op": "restart"}]
         out.append({"property": pid, "seed": "rolling-%s" % t, "tier": "pinned", "config": {"pinned": True, "chart_checks": list(which)},
                     "start": [{"deck": "default"}], "events": evs})
+    # the kept object's categories re-assigned (same count) between uses
+    for t in ("LINE", "BAR_CLUSTERED"):
+        d0 = _simple("cat", 2, 4)
+        g2 = {"vals": [1.5, -2.0, 3.25, 4.0], "label": "R", "name": "new", "ser": 0, "n": 1}
+        evs = [{"op": "add_slide", "layout": 6}, dict(box, op="c07.add_chart", type=t, data=d0, slot=0), dict(g2, op="c07.grow", slot=0, what="relabel"),
+               {"op": "c07.replace", "chart": 0, "datas": {"cat": d0}, "slot": 0}, dict(g2, op="c07.grow", slot=0, what="relabel", label="S"),
+               dict(box, op="c07.add_chart", type=t, data=d0, slot=0), {"op": "checkpoint", "sink": "seekable"}, {"op": "restart"}]
+        out.append({"property": pid, "seed": "rolling-relabel-%s" % t, "tier": "pinned", "config": {"pinned": True, "chart_checks": list(which)},
+                    "start": [{"deck": "default"}], "events": evs})
+    if pid == "C08":
+        # one series of more than 16384 points (a workbook row count an implementation may treat specially)
+        big = {"kind": "cat", "cat_type": "num", "categories": list(range(16390)), "series": [{"name": "long", "values": [float(i % 97) for i in range(16390)]},
+                                                                                            {"name": "second", "values": [float(i % 13) for i in range(16390)]}]}
+        out.append({"property": pid, "seed": "series-longer-than-16384", "tier": "pinned", "config": {"pinned": True, "chart_checks": list(which)}, "start": [{"deck": "default"}],
+                    "events": [{"op": "add_slide", "layout": 6}, dict(box, op="c07.add_chart", type="LINE", data=big), {"op": "checkpoint", "sink": "seekable"}]})
     # multi-level chart data kept and grown under a non-last group between uses
     ml = {"kind": "cat", "cat_type": "multi", "categories": {"tree": [{"label": "G1", "sub": [{"label": "a"}, {"label": "b"}]}, {"label": "G2", "sub": [{"label": "c"}]},
                                                                        {"label": "G3", "sub": [{"label": "d"}, {"label": "e"}]}]},
@@ -920,7 +944,7 @@ def pinned_traces(tier, which=("c07",)):
                     "start": [{"deck": deck}], "events": evs})
         dates = {"kind": "cat", "cat_type": "date", "categories": [{"date": "1903-12-31"}, {"date": "1904-01-01"}, {"date": "2016-12-27"}, {"date": "2017-07-01", "time": "00:00:00"}],
                  "series": [{"name": "s%d" % i, "values": [1.0 + i, 2.0, 3.0, 4.0]} for i in range(7)]}
-        for how in ("reverse_idx", "date1904"):
+        for how in ("reverse_idx", "date1904", "shift_order"):
             evs2 = [{"op": "c07.replace", "chart": k, "held": k % 2 == 0, "datas": {"cat": dates, "xy": _simple("xy", 7, [2, 3]), "bubble": _simple("bubble", 7, [2, 2])}} for k in range(12)]
             evs2 += [{"op": "checkpoint", "sink": "seekable"}, {"op": "restart"}]
             out.append({"property": pid, "seed": "corpus-%s-%s" % (deck, how), "tier": "pinned", "config": {"pinned": True, "chart_checks": list(which)},
